@@ -33,6 +33,7 @@ def maskKeeps (mask : String) (i : Nat) : Bool :=
   match mask with
   | "c01" => i < 7 || (23 ≤ i && i < 34)
   | "c02" => 7 ≤ i && i < 27
+  | "c04" => (1 ≤ i && i < 7) || (10 ≤ i && i < 18) || (24 ≤ i && i < 27) || (28 ≤ i && i < 30) || (31 ≤ i && i < 34)
   | _ => true
 
 def maskCells (mask : String) (o : Obs) : Obs :=
